@@ -248,9 +248,18 @@ class Oracles:
             elif code != 0:
                 self.v("C10", "`%s` raised (code %d)" % (line, code), line)
         # frozen: keys that are disabled before and after keep their values on surviving nodes / edges
+        # nodes that a stroke overwrites may be deleted and re-created inside the one call (rollback of a
+        # refused stroke): unregistered values do not survive that, as for any delete + undo
+        exempt = set()
+        if kind == "paint" and before.get("seg") is not None:
+            tk = line.split()
+            idx_ = [int(x) for x in tk[3].split(".")] if tk[3] != "-" else []
+            exempt = set(int(x) for x in before["seg"][int(tk[2])].reshape(-1)[idx_].tolist()) - {0}
         for k in E.RP_KEYS:
             if k in avail and k not in before["act"] and k not in act:
                 for n in g.nodes:
+                    if int(n) in exempt:
+                        continue
                     if int(n) in before["raw"] and not _eq(_plain(g.nodes[n].get(k)), before["raw"][int(n)][k]):
                         self.v("C10", "`%s` changed the disabled feature %s of node %d: %s -> %s" % (line, k, n, before["raw"][int(n)][k], g.nodes[n].get(k)), line)
         if "iou" in avail and "iou" not in before["act"] and "iou" not in act:
